@@ -786,6 +786,17 @@ def c17_extra(tier, rnd):
                     [q0(topic="a", alias=1), p(topic="", alias=1), p(topic="", alias=2)],           # unbound
                     [p(), p(topic="b", alias=2), q0(topic="", alias=2)]):                           # first binding by a refused publish
             runs.append(dict(cfg=cfg, cmds=[hs] + mid + [{"c": "drain"}], src="alias_dup_id"))
+    # Topic Alias Maximum 0: the endpoint accepts no alias at all (0 does not mean "no limit"); maximum 1: alias 1 is
+    # the only one
+    for role in ("server", "client"):
+        for amax, alias in ((0, 1), (0, 2), (1, 1), (1, 2)):
+            cfg = dict(role=role, ver=5, gate_pub=0, gate_proto=0, max_qos=2, max_receive=16, max_receive_size=0, strict=17)
+            cfg["max_topic_alias" if role == "server" else "client_topic_alias_max"] = amax
+            hs = handshake(role, 5, connect={"rm": 16}) if role == "server" else handshake(role, 5)
+            runs.append(dict(cfg=cfg, src="alias_max_%d" % amax,
+                             cmds=[hs, {"c": "in", "p": {"t": "publish", "q": 0, "id": 0, "topic": "a", "plen": 1, "fill": 97, "alias": alias}},
+                                   {"c": "in", "p": {"t": "publish", "q": 0, "id": 0, "topic": "", "plen": 1, "fill": 97, "alias": alias}},
+                                   {"c": "drain"}]))
     return runs
 
 
@@ -1412,6 +1423,33 @@ def run_topic(prop, tier, seed):
     verdict = vlib.judge("TopicJudge", op + ".sample.ndjson", f"topic_{tier}", parallel=1)
     viols = [dict(why=v["why"], f=v["f"], t=v["t"]) for v in res["violations"]]
     viols += [dict(why=v["why"], f="(judge sample line)", t="") for v in verdict["viol"]]
+    # connection level: SUBSCRIBE / UNSUBSCRIBE whose filter list is all valid (reaches the application, is answered)
+    # or contains an invalid filter anywhere in the list (ends the connection with a protocol error); validity is
+    # TLC's (Topic.tla), the verdict ProtoMon's
+    vfs = set(vf)
+    bad = [x for x in strings if x not in vfs and x != ""]
+    good = [x for x in vf]
+    lists = [[x] for x in rnd.sample(strings[1:], min(len(strings) - 1, 40 if tier == "quick" else 400))]
+    for _ in range(60 if tier == "quick" else 600):
+        k = rnd.randint(2, 3)
+        fl = [rnd.choice(good) for _ in range(k)]
+        if rnd.random() < 0.6 and bad:
+            fl[rnd.randrange(k)] = rnd.choice(bad)
+        lists.append(fl)
+    cruns = []
+    for fl in lists:
+        ok = all(x in vfs for x in fl)
+        for ver in (3, 5):
+            for kind in ("subscribe", "unsubscribe"):
+                cruns.append(dict(cfg=dict(role="server", ver=ver, gate_pub=0, gate_proto=0, max_qos=2, max_receive=16),
+                                  cmds=[handshake("server", ver), {"c": "mark", "e": "expect_filters", "k": "ok" if ok else "bad"},
+                                        {"c": "in", "p": {"t": kind, "id": 1, "filters": fl}}, {"c": "drain"}], src="filters", fl=fl))
+    ctp, _hw = vlib.run_harness("conn", cruns, f"topic_{tier}_conn")
+    cverdict = vlib.judge("ProtoJudge", ctp, f"topic_{tier}_conn")
+    for v in cverdict["viol"]:
+        r_ = cruns[v["run"]] if isinstance(v.get("run"), int) and v["run"] < len(cruns) else None
+        viols.append(dict(why=v["why"], f=json.dumps(r_["fl"]) if r_ else "?", t=(f"v{r_['cfg']['ver']} " + r_["cmds"][2]["p"]["t"]) if r_ else ""))
+    verdict["runs"] += cverdict["runs"]
     known = vlib.load_known()
     new = []
     seen_known = {}
